@@ -267,6 +267,12 @@ def run(ctx):
     imported(ctx, C11.rule_A2)
     imported(ctx, C03.rule_I1)
     imported(ctx, C03.rule_I2)
+    # "every data point not covered by a retained clade is reported with clone id -1": the tables the command writes
+    # (same rule objects as C12.N2 - N4)
+    from . import C12
+
+    imported(ctx, C12.rule_N2)
+    imported(ctx, C12.rule_N3_N4)
 
 
 _C = "phyclone/process_trace/consensus.py"
